@@ -1,6 +1,7 @@
 mod bind;
 mod common;
 mod gram;
+mod ls;
 mod props;
 mod refs;
 mod refs_lr;
@@ -10,6 +11,11 @@ mod srcval;
 use common::Tier;
 
 fn main() {
+    // Builder::generate_parser runs `rustfmt` on every generated file (about a second per call
+    // through the rustup proxy); a no-op stand-in is put first in PATH
+    let fake = common::verif_root().join("tools").join("fakebin");
+    let path = std::env::var("PATH").unwrap_or_default();
+    unsafe { std::env::set_var("PATH", format!("{}:{}", fake.display(), path)) };
     common::init_out();
     common::install_panic_hook();
     let args: Vec<String> = std::env::args().collect();
